@@ -195,7 +195,7 @@ theorem dated_year_yearless_eq (s : DateSpec) (so : DateOffset) (e : DateSpec) (
   -- the year of the shifted start is close to the year it carries
   have hs0y : InY sy s0 := dateInstance_year s sy true hs.wf (by omega) (by unfold maxYear; omega) s0 hs0
   have hSy : InY (year S) S := inY_year S
-  have hsb := shift_bounds so s0
+  have hsb := inst_shift_bounds hs (y := sy) (by omega) hs0
   rw [hSe] at hsb
   have hdist := year_dist hSy hs0y (so.days.natAbs + 6) (by omega) (by omega)
   generalize hy0 : year S = y0 at *
